@@ -280,7 +280,10 @@ Definition sstep (s : spec) (o : op) (r : res) : spec :=
       match r with
       | ROk => mkSpec (sack s ++ spend s) (sack s ++ spend s) [] []
       | RRefused | RNoop => s
-      | RFail landed | RCrash landed =>
+      | RFail landed =>
+          (* the call returned: when nothing of the batch stayed on disk there is no batch in flight *)
+          mkSpec (sack s) (if landed then sack s ++ spend s else sdur s) (if landed then spend s else []) (spend s)
+      | RCrash landed =>
           mkSpec (sack s) (if landed then sack s ++ spend s else sdur s) (spend s) (spend s)
       end
   | Reopen => if accepted r then mkSpec (sdur s) (sdur s) [] [] else s
